@@ -58,3 +58,30 @@ Definition option_eqb {A} (eqb : A -> A -> bool) (a b : option A) : bool :=
   | Some x, Some y => eqb x y
   | _, _ => false
   end.
+
+(* ---------- observations of an assembly ------------------------------------- *)
+From MV Require Import Assembly.
+
+Inductive asm_obs :=
+| OProduct (w : string) (unused : list nat)      (* product text; ids in the UnusedModules warning, sorted *)
+| OInvalid                                       (* InvalidSequence (or IllegalSite) *)
+| ODuplicate (a b : nat)                         (* DuplicateModules, as an unordered pair *)
+| OMissing (o : string)                          (* MissingModule.start_overhang *)
+| OOther.                                        (* any other exception *)
+
+Fixpoint nat_insert (x : nat) (l : list nat) : list nat :=
+  match l with
+  | [] => [x]
+  | y :: r => if Nat.leb x y then x :: l else y :: nat_insert x r
+  end.
+Definition nat_sort (l : list nat) : list nat := fold_right nat_insert [] l.
+
+Definition asm_obs_ok (o : @outcome (list code)) (x : asm_obs) : bool :=
+  match o, x with
+  | Product w _ r, OProduct w' r' => word_eqb w (dna w') && list_eqb Nat.eqb (nat_sort r) r'
+  | EInvalid, OInvalid => true
+  | EDuplicate a b, ODuplicate a' b' =>
+      (Nat.eqb a a' && Nat.eqb b b') || (Nat.eqb a b' && Nat.eqb b a')
+  | EMissing k, OMissing k' => codes_eqb k (okey (dna k'))
+  | _, _ => false
+  end.
